@@ -93,13 +93,14 @@ def make_tensor(types: list[tuple], ty: int, tid: int, rank: int,
 
 
 def members(r: int, role: str) -> set[int]:
+    role = {'worldx': 'world', 'rowx': 'row'}.get(role, role)
     return {'world': {0, 1, 2, 3}, 'row': {0, 1} if r in (0, 1) else {2, 3},
             'col': {0, 2} if r in (0, 2) else {1, 3}, 'self': {r}}[role]
 
 
 def participates(r: int, c: dict[str, Any]) -> bool:
     inst = c.get('inst', 'both')
-    if inst == 'both' or c['g'] in ('world', 'self'):
+    if inst == 'both' or c['g'] in ('world', 'worldx', 'self'):
         return True
     first = 0 in members(r, c['g'])
     return first if inst == 'first' else not first
@@ -124,7 +125,11 @@ def execute(d: dict[str, Any], types: list[tuple], cap: int,
         col = dist.new_group([0, 2])
         col2 = dist.new_group([1, 3])
         selfs = [dist.new_group([q]) for q in range(4)]
-        groups = {'world': None,
+        worldx = dist.new_group([0, 1, 2, 3])
+        rowx = dist.new_group([0, 1])
+        rowx2 = dist.new_group([2, 3])
+        groups = {'world': None, 'worldx': worldx,
+                  'rowx': rowx if r in (0, 1) else rowx2,
                   'row': row if r in (0, 1) else row2,
                   'col': col if r in (0, 2) else col2,
                   'self': selfs[r]}
